@@ -17,7 +17,7 @@ from mc import explore
 
 LEVEL = 'model_checking'
 DMAX = 80
-FS = [0.0, 1e-6, 1e-3, 0.1, 0.5, 0.9]
+FS = [0.0, 1e-8, 1e-6, 1e-3, 0.1, 0.5, 0.9]       # 1e-8: (1-F)/F beyond 1e7, where a large-parameter branch of the beta-binomial would sit
 
 
 def coverage_alphabet():
